@@ -14,7 +14,7 @@
    trees and on the implementation's pages, and is false for trees whose directory order is not key order
    (known finding c07:order-incompatible-tree, witness below). *)
 From Coq Require Import String Ascii List Arith Bool.
-From VGW Require Import Base.GoStr Model.Walk Spec.ListSpec Proofs.WalkProof Proofs.WalkFlat Proofs.WalkRefine Proofs.WalkPage.
+From VGW Require Import Base.GoStr Model.Walk Spec.ListSpec Proofs.WalkProof Proofs.WalkFlat Proofs.WalkRefine Proofs.WalkPage Proofs.WalkDelim Proofs.WalkFolder.
 Import ListNotations.
 Open Scope string_scope.
 
@@ -52,6 +52,53 @@ Theorem C07_pagination_complete : forall b kids max fuel, names_ok (D b kids) ->
 Proof. exact walk_pages_all. Qed.
 Print Assumptions C07_pagination_complete.
 
+(* grouping. With the delimiter "/" (and no prefix) every top-level object is listed as a key and every top-level directory exactly
+   once as a common prefix, in order, paged exactly as the S3 rule pages the entries: for every order-compatible tree whose
+   top-level names are path segments and whose top-level directories each hold at least one key, every marker and every page size. *)
+Theorem C07_delimited_refines : forall b kids marker max,
+  names_ok (D b kids) -> (forall n t, In (n, t) kids -> noslash n) -> dirs_keyed kids ->
+  sorted_b (map fst (nodes_at "." (D b kids))) = true ->
+  walk (D b kids) "" "/" marker max [] true = Some (s3_list (sort_strs (keys_at "." (D b kids))) "" "/" marker max).
+Proof. exact delimited_refines. Qed.
+Print Assumptions C07_delimited_refines.
+
+(* following the markers of delimited pages visits every entry of the S3 rule (objects and common prefixes) exactly once, in order *)
+Theorem C07_delimited_pagination_complete : forall b kids max fuel,
+  names_ok (D b kids) -> (forall n t, In (n, t) kids -> noslash n) -> dirs_keyed kids ->
+  sorted_b (map fst (nodes_at "." (D b kids))) = true -> 0 < max -> List.length kids < fuel ->
+  let E := entries_after (sort_strs (keys_at "." (D b kids))) "" "/" "" in
+  dwpages (D b kids) "" max fuel = (objs_of E, cps_of E).
+Proof. exact walk_delimited_pages_all. Qed.
+Print Assumptions C07_delimited_pagination_complete.
+
+(* listing one folder: with prefix "q/" and delimiter "/", where q names a directory that is not itself an object, the page is the
+   S3 rule's page over the keys stored below q — each object directly in the folder a key, each sub-directory one common prefix
+   "q/name/" — for every marker and page size. (A directory object with children is the known finding
+   c07:nonempty-directory-object-with-delimiter, hence [D false].) *)
+Theorem C07_folder_refines : forall t q kids marker max,
+  q <> "." -> q <> "" ->
+  forallb valid_seg (split_slash q "") = true -> resolve t (split_slash q "") = Some (D false kids) ->
+  kids <> [] -> kids_ok kids -> folder_keyed q kids -> sorted_b (map fst (nodes_at q (D false kids))) = true ->
+  walk t (q ++ "/") "/" marker max [] true = Some (s3_list (keys_at q (D false kids)) (q ++ "/") "/" marker max).
+Proof. exact folder_walk. Qed.
+Print Assumptions C07_folder_refines.
+
+(* internal bookkeeping names never appear: a prefix that leads into (or below) a bookkeeping directory lists nothing, whatever
+   the tree, delimiter, marker and page size; at the top level such a directory is skipped by the walk itself (Model.Walk.cb) *)
+Theorem C07_bookkeeping_prefix_empty : forall t sd r delim marker max skip flag,
+  In sd skip -> r <> "" -> (r = sd \/ has_prefix r (sd ++ "/") = true) ->
+  walk t (r ++ "/") delim marker max skip flag = Some empty_result.
+Proof. exact bookkeeping_prefix_empty. Qed.
+Print Assumptions C07_bookkeeping_prefix_empty.
+
+(* without the last hypothesis the statement is false of the faithful model (known finding c07:keyless-directory-with-delimiter):
+   a directory that holds no key is still reported as a common prefix *)
+Theorem C07_keyless_directory_refuted :
+  let t := D false [("a", F true); ("e", D false [])] in
+  walk t "" "/" "" 10 [] true <> Some (s3_list (sort_strs (keys_at "." t)) "" "/" "" 10).
+Proof. vm_compute. discriminate. Qed.
+Print Assumptions C07_keyless_directory_refuted.
+
 (* the full statement is false of the faithful model on trees whose directory order is not key order:
    keys a/b, a-, ab ("-" sorts before "/"); the first page of size 1 names a/b, the S3 rule names a- *)
 Definition witness_tree : tree := D false [("a", D false [("b", F true)]); ("a-", F true); ("ab", F true)].
@@ -82,3 +129,41 @@ Example C07_example_tree_ok :
   let t := D false [("a", D true [("b", F true); ("c", F true)]); ("b.txt", F true)] in
   sorted_b (keys_at "." t) = true /\ keys_at "." t = ["a/"; "a/b"; "a/c"; "b.txt"].
 Proof. vm_compute. split; reflexivity. Qed.
+
+(* non-vacuity of the hypotheses of the grouping theorem, and what it yields on this tree: pages of size 2 *)
+Example C07_example_delimited :
+  let kids := [("a", D true [("b", F true); ("c", F true)]); ("b.txt", F true); ("d", D false [("x", D false [("y", F true)])]); ("e", F true)] in
+  let t := D false kids in
+  names_ok t /\ (forall n t', In (n, t') kids -> noslash n) /\ dirs_keyed kids /\ sorted_b (map fst (nodes_at "." t)) = true /\
+  walk t "" "/" "" 2 [] true = Some {| r_objs := ["b.txt"]; r_cps := ["a/"]; r_trunc := true; r_next := "b.txt" |} /\
+  walk t "" "/" "b.txt" 2 [] true = Some {| r_objs := ["e"]; r_cps := ["d/"]; r_trunc := false; r_next := "" |}.
+Proof.
+  cbv zeta. split; [cbn; repeat split; discriminate|].
+  split; [intros n t' H; cbn [In] in H; repeat (destruct H as [H|H]; [inversion H; subst; reflexivity|]); destruct H|].
+  split; [intros n t' H Hd; cbn [In] in H; repeat (destruct H as [H|H]; [inversion H; subst; try discriminate Hd; vm_compute; discriminate|]); destruct H|].
+  vm_compute. repeat split; reflexivity.
+Qed.
+
+(* non-vacuity of the folder theorem: the folder p/d of a three-level tree, pages of size 2 *)
+Example C07_example_folder :
+  let kids := [("a", F true); ("s", D false [("x", F true); ("y", F true)]); ("z", F true)] in
+  let t := D false [("p", D false [("d", D false kids)]); ("r", F true)] in
+  resolve t (split_slash "p/d" "") = Some (D false kids) /\ forallb valid_seg (split_slash "p/d" "") = true /\
+  kids_ok kids /\ folder_keyed "p/d" kids /\ sorted_b (map fst (nodes_at "p/d" (D false kids))) = true /\
+  walk t "p/d/" "/" "" 2 [] true = Some {| r_objs := ["p/d/a"]; r_cps := ["p/d/s/"]; r_trunc := true; r_next := "p/d/s/" |} /\
+  walk t "p/d/" "/" "p/d/s/" 2 [] true = Some {| r_objs := ["p/d/z"]; r_cps := []; r_trunc := false; r_next := "" |}.
+Proof.
+  cbv zeta. split; [reflexivity|]. split; [reflexivity|].
+  split; [intros n t' H; cbn [In] in H; repeat (destruct H as [H|H]; [inversion H; subst; repeat split; try discriminate; exact I|]); destruct H|].
+  split; [intros n t' H Hd; cbn [In] in H; repeat (destruct H as [H|H]; [inversion H; subst; try discriminate Hd; vm_compute; discriminate|]); destruct H|].
+  vm_compute. repeat split; reflexivity.
+Qed.
+
+(* non-vacuity: the staging area of an upload in flight, listed through its own prefix *)
+Example C07_example_bookkeeping :
+  let t := D false [(".sgwtmp", D false [("multipart", D false [("h", D false [("u", D false [("1", F true)])])])]); ("a", F true)] in
+  walk t ".sgwtmp/multipart/" "" "" 10 [".sgwtmp"] false = Some empty_result /\
+  walk t ".sgwtmp/" "/" "" 10 [".sgwtmp"] false = Some empty_result /\
+  walk t "" "" "" 10 [".sgwtmp"] false = Some {| r_objs := ["a"]; r_cps := []; r_trunc := false; r_next := "" |} /\
+  walk t ".sgwtmp/multipart/" "" "" 10 [] false = Some {| r_objs := [".sgwtmp/multipart/h/u/1"]; r_cps := []; r_trunc := false; r_next := "" |}.
+Proof. vm_compute. repeat split; reflexivity. Qed.
